@@ -1,4 +1,5 @@
 import CollectionsC.Proofs.ListTraverse
+import CollectionsC.Proofs.ListPrograms
 import CollectionsC.Properties.C04
 /-! # C07 (lists) — iterators traverse completely and in order; one-step mutation is safe
 
@@ -30,10 +31,11 @@ theorem dlist_iter_traverses (l : Chain) (h : l.Inv) (m : Mem) :
     (DList.iterNexts l l.abs.length (DList.iterInit l) m).2.2 = m ∧
     (DList.iterNext l (DList.iterNexts l l.abs.length (DList.iterInit l) m).2.1 m).1 = .iterEnd := by
   rw [h.eq]; simp only [ofList_abs]
-  have r := DList.iterNexts_refines l.abs l.abs.length _ _ m (DList.iterInit_rel l.abs)
+  generalize l.triple = t
+  have r := DList.iterNexts_refines (t := t) l.abs l.abs.length _ _ m (DList.iterInit_rel (t := t) l.abs)
   have s := LSeqT.nexts_spec l.abs l.abs.length LSeq.itNew (by simp [LSeq.itNew])
   refine ⟨by rw [r.1, s.1]; simp [LSeq.itNew], r.2.2, ?_⟩
-  obtain ⟨it', e, _⟩ := DList.iterNext_ofList l.abs _ _ m r.2.1
+  obtain ⟨it', e, _⟩ := DList.iterNext_ofList (t := t) l.abs _ _ m r.2.1
   rw [e]
   exact (LSeqT.next_end_iff l.abs _ (by rw [s.2]; simp [LSeq.itNew])).2 (by rw [s.2]; simp [LSeq.itNew])
 
@@ -43,10 +45,11 @@ theorem dlist_diter_traverses (l : Chain) (h : l.Inv) (m : Mem) :
     (DList.diterNexts l l.abs.length (DList.diterInit l) m).2.2 = m ∧
     (DList.diterNext l (DList.diterNexts l l.abs.length (DList.diterInit l) m).2.1 m).1 = .iterEnd := by
   rw [h.eq]; simp only [ofList_abs]
-  have r := DList.diterNexts_refines l.abs l.abs.length _ _ m (DList.diterInit_rel l.abs)
+  generalize l.triple = t
+  have r := DList.diterNexts_refines (t := t) l.abs l.abs.length _ _ m (DList.diterInit_rel (t := t) l.abs)
   have s := LSeqT.dnexts_spec l.abs l.abs.length (LSeq.ditNew l.abs) (by simp [LSeq.ditNew]) (by simp [LSeq.ditNew])
   refine ⟨by rw [r.1, s.1]; simp [LSeq.ditNew, List.take_of_length_le], r.2.2, ?_⟩
-  obtain ⟨it', e, _⟩ := DList.diterNext_ofList l.abs _ _ m r.2.1
+  obtain ⟨it', e, _⟩ := DList.diterNext_ofList (t := t) l.abs _ _ m r.2.1
   rw [e]
   exact (LSeqT.dnext_end_iff l.abs _ (by rw [s.2]; simp [LSeq.ditNew])).2 (by rw [s.2]; simp [LSeq.ditNew])
 
@@ -56,14 +59,16 @@ theorem dlist_zip_traverses (l1 l2 : Chain) (h1 : l1.Inv) (h2 : l2.Inv) (m : Mem
       (l1.abs.zip l2.abs).map (fun v => (Stat.ok, some v)) ∧
     (DList.zipNext l1 l2 (DList.zipNexts l1 l2 (min l1.abs.length l2.abs.length) (DList.zipInit l1 l2) m).2.1 m).1 = .iterEnd := by
   rw [h1.eq, h2.eq]; simp only [ofList_abs]
-  have r := DList.zipNexts_refines l1.abs l2.abs (min l1.abs.length l2.abs.length) _ _ m (DList.zipInit_rel l1.abs l2.abs)
+  generalize l1.triple = t
+  generalize l2.triple = t2
+  have r := DList.zipNexts_refines (t := t) (t2 := t2) l1.abs l2.abs (min l1.abs.length l2.abs.length) _ _ m (DList.zipInit_rel (t := t) (t2 := t2) l1.abs l2.abs)
   have s := LSeqT.znexts_spec l1.abs l2.abs (min l1.abs.length l2.abs.length) LSeq.itNew
     (by simp [LSeq.itNew]; omega) (by simp [LSeq.itNew]; omega)
   refine ⟨?_, ?_⟩
   · rw [r.1, s.1]
     simp only [LSeq.itNew, List.drop_zero]
     rw [List.take_of_length_le (by simp [List.length_zip])]
-  · obtain ⟨z', e, _⟩ := DList.zipNext_ofList l1.abs l2.abs _ _ m r.2.1
+  · obtain ⟨z', e, _⟩ := DList.zipNext_ofList (t := t) (t2 := t2) l1.abs l2.abs _ _ m r.2.1
     rw [e]
     exact (LSeqT.znext_end_iff l1.abs l2.abs _ (by rw [s.2]; simp [LSeq.itNew]; omega) (by rw [s.2]; simp [LSeq.itNew]; omega)).2
       (by rw [s.2]; simp [LSeq.itNew])
@@ -74,10 +79,11 @@ theorem slist_iter_traverses (l : Chain) (h : l.Inv) (m : Mem) :
     (SList.iterNexts l l.abs.length (SList.iterInit l) m).2.2 = m ∧
     (SList.iterNext l (SList.iterNexts l l.abs.length (SList.iterInit l) m).2.1 m).1 = .iterEnd := by
   rw [h.eq]; simp only [ofList_abs]
-  have r := SList.iterNexts_refines l.abs l.abs.length _ _ m (SList.iterInit_rel l.abs)
+  generalize l.triple = t
+  have r := SList.iterNexts_refines (t := t) l.abs l.abs.length _ _ m (SList.iterInit_rel (t := t) l.abs)
   have s := LSeqT.nexts_spec l.abs l.abs.length LSeq.itNew (by simp [LSeq.itNew])
   refine ⟨by rw [r.1, s.1]; simp [LSeq.itNew], r.2.2, ?_⟩
-  obtain ⟨it', e, _⟩ := SList.iterNext_ofList l.abs _ _ m r.2.1
+  obtain ⟨it', e, _⟩ := SList.iterNext_ofList (t := t) l.abs _ _ m r.2.1
   rw [e]
   exact (LSeqT.next_end_iff l.abs _ (by rw [s.2]; simp [LSeq.itNew])).2 (by rw [s.2]; simp [LSeq.itNew])
 
@@ -87,81 +93,88 @@ theorem slist_zip_traverses (l1 l2 : Chain) (h1 : l1.Inv) (h2 : l2.Inv) (m : Mem
       (l1.abs.zip l2.abs).map (fun v => (Stat.ok, some v)) ∧
     (SList.zipNext l1 l2 (SList.zipNexts l1 l2 (min l1.abs.length l2.abs.length) (SList.zipInit l1 l2) m).2.1 m).1 = .iterEnd := by
   rw [h1.eq, h2.eq]; simp only [ofList_abs]
-  have r := SList.zipNexts_refines l1.abs l2.abs (min l1.abs.length l2.abs.length) _ _ m (SList.zipInit_rel l1.abs l2.abs)
+  generalize l1.triple = t
+  generalize l2.triple = t2
+  have r := SList.zipNexts_refines (t := t) (t2 := t2) l1.abs l2.abs (min l1.abs.length l2.abs.length) _ _ m (SList.zipInit_rel (t := t) (t2 := t2) l1.abs l2.abs)
   have s := LSeqT.znexts_spec l1.abs l2.abs (min l1.abs.length l2.abs.length) LSeq.itNew
     (by simp [LSeq.itNew]; omega) (by simp [LSeq.itNew]; omega)
   refine ⟨?_, ?_⟩
   · rw [r.1, s.1]
     simp only [LSeq.itNew, List.drop_zero]
     rw [List.take_of_length_le (by simp [List.length_zip])]
-  · obtain ⟨z', e, _⟩ := SList.zipNext_ofList l1.abs l2.abs _ _ m r.2.1
+  · obtain ⟨z', e, _⟩ := SList.zipNext_ofList (t := t) (t2 := t2) l1.abs l2.abs _ _ m r.2.1
     rw [e]
     exact (LSeqT.znext_end_iff l1.abs l2.abs _ (by rw [s.2]; simp [LSeq.itNew]; omega) (by rw [s.2]; simp [LSeq.itNew]; omega)).2
       (by rw [s.2]; simp [LSeq.itNew])
 
-/-! ## One-step mutation: the concrete cursors simulate the ideal cursor -/
+/-! ## One-step mutation: the concrete cursors simulate the ideal cursor
+
+Every list works through its own allocator triple `t` (`t2` for the second list of a zip iterator):
+`remove` releases the node through it, `add` obtains the node from it. -/
 
 /-- **Ascending iterator of `cc_list.c`**: `next`, `remove`, `replace`, `add` and `index` from related
 states return exactly what the ideal cursor returns, end in the canonical state of the ideal
 content (so the list invariant — size, both ends — holds and all other elements are intact) and
 re-establish the relation; `remove` releases exactly one block, `add` obtains exactly one, a
 refused `add` changes nothing. -/
-theorem dlist_iter_simulation (xs : List Nat) (c : LSeq.Cursor) (it : DList.Iter) (m : Mem) (h : DList.ItRel xs c it) :
-    (∃ it', DList.iterNext (ofList xs) it m = ((LSeq.itNext xs c).1, (LSeq.itNext xs c).2.1, it', m) ∧
+theorem dlist_iter_simulation (t : Triple) (xs : List Nat) (c : LSeq.Cursor) (it : DList.Iter) (m : Mem) (h : DList.ItRel xs c it) :
+    (∃ it', DList.iterNext (ofList t xs) it m = ((LSeq.itNext xs c).1, (LSeq.itNext xs c).2.1, it', m) ∧
       DList.ItRel xs (LSeq.itNext xs c).2.2 it') ∧
-    (∃ it', DList.iterRemove (ofList xs) it m =
-        ((LSeq.itRemove xs c).1, (LSeq.itRemove xs c).2.1, ofList (LSeq.itRemove xs c).2.2.1, it',
-         if (LSeq.itRemove xs c).1 = .ok then m.free else m) ∧
+    (∃ it', DList.iterRemove (ofList t xs) it m =
+        ((LSeq.itRemove xs c).1, (LSeq.itRemove xs c).2.1, ofList t (LSeq.itRemove xs c).2.2.1, it',
+         if (LSeq.itRemove xs c).1 = .ok then m.freeT t else m) ∧
       DList.ItRel (LSeq.itRemove xs c).2.2.1 (LSeq.itRemove xs c).2.2.2 it') ∧
-    (∀ x, DList.iterReplace (ofList xs) it x m =
-        ((LSeq.itReplace xs c x).1, (LSeq.itReplace xs c x).2.1, ofList (LSeq.itReplace xs c x).2.2, m) ∧
+    (∀ x, DList.iterReplace (ofList t xs) it x m =
+        ((LSeq.itReplace xs c x).1, (LSeq.itReplace xs c x).2.1, ofList t (LSeq.itReplace xs c x).2.2, m) ∧
       DList.ItRel (LSeq.itReplace xs c x).2.2 c it) ∧
     (∀ x k, c.cur = some k → c.pos = k + 1 →
-      ∃ it', DList.iterAdd (ofList xs) it x m =
-        (if m.alloc.1 then (.ok, ofList (LSeq.itAdd false xs c x).1, it', m.alloc.2) else (.errAlloc, ofList xs, it, m.alloc.2)) ∧
+      ∃ it', DList.iterAdd (ofList t xs) it x m =
+        (if (m.allocT t).1 then (.ok, ofList t (LSeq.itAdd false xs c x).1, it', (m.allocT t).2) else (.errAlloc, ofList t xs, it, (m.allocT t).2)) ∧
       DList.ItRel (LSeq.itAdd false xs c x).1 (LSeq.itAdd false xs c x).2 it') ∧
     DList.iterIndex it = LSeq.itIndex c :=
   ⟨DList.iterNext_ofList xs c it m h, DList.iterRemove_ofList xs c it m h, fun x => DList.iterReplace_ofList xs c it x m h,
    fun x k hc hp => DList.iterAdd_ofList xs c it x k m h hc hp, DList.iterIndex_rel xs c it h⟩
 
 /-- **Descending iterator of `cc_list.c`.** -/
-theorem dlist_diter_simulation (xs : List Nat) (c : LSeq.Cursor) (it : DList.Iter) (m : Mem) (h : DList.DitRel xs c it) :
-    (∃ it', DList.diterNext (ofList xs) it m = ((LSeq.ditNext xs c).1, (LSeq.ditNext xs c).2.1, it', m) ∧
+theorem dlist_diter_simulation (t : Triple) (xs : List Nat) (c : LSeq.Cursor) (it : DList.Iter) (m : Mem) (h : DList.DitRel xs c it) :
+    (∃ it', DList.diterNext (ofList t xs) it m = ((LSeq.ditNext xs c).1, (LSeq.ditNext xs c).2.1, it', m) ∧
       DList.DitRel xs (LSeq.ditNext xs c).2.2 it') ∧
-    (∃ it', DList.diterRemove (ofList xs) it m =
-        ((LSeq.ditRemove xs c).1, (LSeq.ditRemove xs c).2.1, ofList (LSeq.ditRemove xs c).2.2.1, it',
-         if (LSeq.ditRemove xs c).1 = .ok then m.free else m) ∧
+    (∃ it', DList.diterRemove (ofList t xs) it m =
+        ((LSeq.ditRemove xs c).1, (LSeq.ditRemove xs c).2.1, ofList t (LSeq.ditRemove xs c).2.2.1, it',
+         if (LSeq.ditRemove xs c).1 = .ok then m.freeT t else m) ∧
       DList.DitRel (LSeq.ditRemove xs c).2.2.1 (LSeq.ditRemove xs c).2.2.2 it') ∧
-    (∀ x, DList.iterReplace (ofList xs) it x m =
-        ((LSeq.itReplace xs c x).1, (LSeq.itReplace xs c x).2.1, ofList (LSeq.itReplace xs c x).2.2, m) ∧
+    (∀ x, DList.iterReplace (ofList t xs) it x m =
+        ((LSeq.itReplace xs c x).1, (LSeq.itReplace xs c x).2.1, ofList t (LSeq.itReplace xs c x).2.2, m) ∧
       DList.DitRel (LSeq.itReplace xs c x).2.2 c it) ∧
     (∀ x k, c.cur = some k → c.pos = k →
-      ∃ it', DList.diterAdd (ofList xs) it x m =
-        (if m.alloc.1 then (.ok, ofList (LSeq.ditAdd xs c x).1, it', m.alloc.2) else (.errAlloc, ofList xs, it, m.alloc.2)) ∧
+      ∃ it', DList.diterAdd (ofList t xs) it x m =
+        (if (m.allocT t).1 then (.ok, ofList t (LSeq.ditAdd xs c x).1, it', (m.allocT t).2) else (.errAlloc, ofList t xs, it, (m.allocT t).2)) ∧
       DList.DitRel (LSeq.ditAdd xs c x).1 (LSeq.ditAdd xs c x).2 it') ∧
     DList.diterIndex it = LSeq.ditIndex c :=
   ⟨DList.diterNext_ofList xs c it m h, DList.diterRemove_ofList xs c it m h, fun x => DList.diterReplace_ofList xs c it x m h,
    fun x k hc hp => DList.diterAdd_ofList xs c it x k m h hc hp, DList.diterIndex_rel xs c it h⟩
 
-/-- **Zip iterator of `cc_list.c`** (a refused second node releases the first one again). -/
-theorem dlist_zip_simulation (xs ys : List Nat) (c : LSeq.Cursor) (z : DList.ZipIter) (m : Mem) (h : DList.ZipRel xs ys c z) :
-    (∃ z', DList.zipNext (ofList xs) (ofList ys) z m = ((LSeq.zitNext xs ys c).1, (LSeq.zitNext xs ys c).2.1, z', m) ∧
+/-- **Zip iterator of `cc_list.c`** over two lists, each on its own triple (a refused second node
+releases the first one again, through the first list's triple). -/
+theorem dlist_zip_simulation (t t2 : Triple) (xs ys : List Nat) (c : LSeq.Cursor) (z : DList.ZipIter) (m : Mem) (h : DList.ZipRel xs ys c z) :
+    (∃ z', DList.zipNext (ofList t xs) (ofList t2 ys) z m = ((LSeq.zitNext xs ys c).1, (LSeq.zitNext xs ys c).2.1, z', m) ∧
       DList.ZipRel xs ys (LSeq.zitNext xs ys c).2.2 z') ∧
-    (∃ z', DList.zipRemove (ofList xs) (ofList ys) z m =
-        ((LSeq.zitRemove xs ys c).1, (LSeq.zitRemove xs ys c).2.1, ofList (LSeq.zitRemove xs ys c).2.2.1,
-         ofList (LSeq.zitRemove xs ys c).2.2.2.1, z', if (LSeq.zitRemove xs ys c).1 = .ok then m.free.free else m) ∧
+    (∃ z', DList.zipRemove (ofList t xs) (ofList t2 ys) z m =
+        ((LSeq.zitRemove xs ys c).1, (LSeq.zitRemove xs ys c).2.1, ofList t (LSeq.zitRemove xs ys c).2.2.1,
+         ofList t2 (LSeq.zitRemove xs ys c).2.2.2.1, z', if (LSeq.zitRemove xs ys c).1 = .ok then (m.freeT t).freeT t2 else m) ∧
       DList.ZipRel (LSeq.zitRemove xs ys c).2.2.1 (LSeq.zitRemove xs ys c).2.2.2.1 (LSeq.zitRemove xs ys c).2.2.2.2 z') ∧
-    (∀ x1 x2, DList.zipReplace (ofList xs) (ofList ys) z x1 x2 m =
+    (∀ x1 x2, DList.zipReplace (ofList t xs) (ofList t2 ys) z x1 x2 m =
         ((LSeq.zitReplace xs ys c x1 x2).1, (LSeq.zitReplace xs ys c x1 x2).2.1,
-         ofList (LSeq.zitReplace xs ys c x1 x2).2.2.1, ofList (LSeq.zitReplace xs ys c x1 x2).2.2.2, m) ∧
+         ofList t (LSeq.zitReplace xs ys c x1 x2).2.2.1, ofList t2 (LSeq.zitReplace xs ys c x1 x2).2.2.2, m) ∧
       DList.ZipRel (LSeq.zitReplace xs ys c x1 x2).2.2.1 (LSeq.zitReplace xs ys c x1 x2).2.2.2 c z) ∧
     (∀ x1 x2 k, c.cur = some k → c.pos = k + 1 →
-      ∃ z', DList.zipAdd (ofList xs) (ofList ys) z x1 x2 m =
-        (if m.alloc.1 then
-           (if m.alloc.2.alloc.1 then
-              (.ok, ofList (LSeq.zitAdd false xs ys c x1 x2).1, ofList (LSeq.zitAdd false xs ys c x1 x2).2.1, z', m.alloc.2.alloc.2)
-            else (.errAlloc, ofList xs, ofList ys, z, m.alloc.2.alloc.2.free))
-         else (.errAlloc, ofList xs, ofList ys, z, m.alloc.2)) ∧
+      ∃ z', DList.zipAdd (ofList t xs) (ofList t2 ys) z x1 x2 m =
+        (if (m.allocT t).1 then
+           (if ((m.allocT t).2.allocT t2).1 then
+              (.ok, ofList t (LSeq.zitAdd false xs ys c x1 x2).1, ofList t2 (LSeq.zitAdd false xs ys c x1 x2).2.1, z',
+               ((m.allocT t).2.allocT t2).2)
+            else (.errAlloc, ofList t xs, ofList t2 ys, z, ((m.allocT t).2.allocT t2).2.freeT t))
+         else (.errAlloc, ofList t xs, ofList t2 ys, z, (m.allocT t).2)) ∧
       DList.ZipRel (LSeq.zitAdd false xs ys c x1 x2).1 (LSeq.zitAdd false xs ys c x1 x2).2.1 (LSeq.zitAdd false xs ys c x1 x2).2.2 z') ∧
     DList.zipIndex z = LSeq.itIndex c :=
   ⟨DList.zipNext_ofList xs ys c z m h, DList.zipRemove_ofList xs ys c z m h,
@@ -170,48 +183,154 @@ theorem dlist_zip_simulation (xs ys : List Nat) (c : LSeq.Cursor) (z : DList.Zip
 
 /-- **Iterator of `cc_slist.c`** (an added element becomes the current one; no further
 precondition than a current element, because `current`/`prev` are re-pointed — fix S2). -/
-theorem slist_iter_simulation (xs : List Nat) (c : LSeq.Cursor) (it : SList.Iter) (m : Mem) (h : SList.ItRel xs c it) :
-    (∃ it', SList.iterNext (ofList xs) it m = ((LSeq.itNext xs c).1, (LSeq.itNext xs c).2.1, it', m) ∧
+theorem slist_iter_simulation (t : Triple) (xs : List Nat) (c : LSeq.Cursor) (it : SList.Iter) (m : Mem) (h : SList.ItRel xs c it) :
+    (∃ it', SList.iterNext (ofList t xs) it m = ((LSeq.itNext xs c).1, (LSeq.itNext xs c).2.1, it', m) ∧
       SList.ItRel xs (LSeq.itNext xs c).2.2 it') ∧
-    (∃ it', SList.iterRemove (ofList xs) it m =
-        ((LSeq.itRemove xs c).1, (LSeq.itRemove xs c).2.1, ofList (LSeq.itRemove xs c).2.2.1, it',
-         if (LSeq.itRemove xs c).1 = .ok then m.free else m) ∧
+    (∃ it', SList.iterRemove (ofList t xs) it m =
+        ((LSeq.itRemove xs c).1, (LSeq.itRemove xs c).2.1, ofList t (LSeq.itRemove xs c).2.2.1, it',
+         if (LSeq.itRemove xs c).1 = .ok then m.freeT t else m) ∧
       SList.ItRel (LSeq.itRemove xs c).2.2.1 (LSeq.itRemove xs c).2.2.2 it') ∧
-    (∀ x, SList.iterReplace (ofList xs) it x m =
-        ((LSeq.itReplace xs c x).1, (LSeq.itReplace xs c x).2.1, ofList (LSeq.itReplace xs c x).2.2, m) ∧
+    (∀ x, SList.iterReplace (ofList t xs) it x m =
+        ((LSeq.itReplace xs c x).1, (LSeq.itReplace xs c x).2.1, ofList t (LSeq.itReplace xs c x).2.2, m) ∧
       SList.ItRel (LSeq.itReplace xs c x).2.2 c it) ∧
-    (∀ x k, c.cur = some k →
-      ∃ it', SList.iterAdd (ofList xs) it x m =
-        (if m.alloc.1 then (.ok, ofList (LSeq.itAdd true xs c x).1, it', m.alloc.2) else (.errAlloc, ofList xs, it, m.alloc.2)) ∧
+    (∀ x k, c.cur = some k → 
+      ∃ it', SList.iterAdd (ofList t xs) it x m =
+        (if (m.allocT t).1 then (.ok, ofList t (LSeq.itAdd true xs c x).1, it', (m.allocT t).2) else (.errAlloc, ofList t xs, it, (m.allocT t).2)) ∧
       SList.ItRel (LSeq.itAdd true xs c x).1 (LSeq.itAdd true xs c x).2 it') ∧
     SList.iterIndex it = LSeq.itIndex c :=
   ⟨SList.iterNext_ofList xs c it m h, SList.iterRemove_ofList xs c it m h, fun x => SList.iterReplace_ofList xs c it x m h,
    fun x k hc => SList.iterAdd_ofList xs c it x k m h hc, SList.iterIndex_rel xs c it h⟩
 
 /-- **Zip iterator of `cc_slist.c`.** -/
-theorem slist_zip_simulation (xs ys : List Nat) (c : LSeq.Cursor) (z : SList.ZipIter) (m : Mem) (h : SList.ZipRel xs ys c z) :
-    (∃ z', SList.zipNext (ofList xs) (ofList ys) z m = ((LSeq.zitNext xs ys c).1, (LSeq.zitNext xs ys c).2.1, z', m) ∧
+theorem slist_zip_simulation (t t2 : Triple) (xs ys : List Nat) (c : LSeq.Cursor) (z : SList.ZipIter) (m : Mem) (h : SList.ZipRel xs ys c z) :
+    (∃ z', SList.zipNext (ofList t xs) (ofList t2 ys) z m = ((LSeq.zitNext xs ys c).1, (LSeq.zitNext xs ys c).2.1, z', m) ∧
       SList.ZipRel xs ys (LSeq.zitNext xs ys c).2.2 z') ∧
-    (∃ z', SList.zipRemove (ofList xs) (ofList ys) z m =
-        ((LSeq.zitRemove xs ys c).1, (LSeq.zitRemove xs ys c).2.1, ofList (LSeq.zitRemove xs ys c).2.2.1,
-         ofList (LSeq.zitRemove xs ys c).2.2.2.1, z', if (LSeq.zitRemove xs ys c).1 = .ok then m.free.free else m) ∧
+    (∃ z', SList.zipRemove (ofList t xs) (ofList t2 ys) z m =
+        ((LSeq.zitRemove xs ys c).1, (LSeq.zitRemove xs ys c).2.1, ofList t (LSeq.zitRemove xs ys c).2.2.1,
+         ofList t2 (LSeq.zitRemove xs ys c).2.2.2.1, z', if (LSeq.zitRemove xs ys c).1 = .ok then (m.freeT t).freeT t2 else m) ∧
       SList.ZipRel (LSeq.zitRemove xs ys c).2.2.1 (LSeq.zitRemove xs ys c).2.2.2.1 (LSeq.zitRemove xs ys c).2.2.2.2 z') ∧
-    (∀ x1 x2, SList.zipReplace (ofList xs) (ofList ys) z x1 x2 m =
+    (∀ x1 x2, SList.zipReplace (ofList t xs) (ofList t2 ys) z x1 x2 m =
         ((LSeq.zitReplace xs ys c x1 x2).1, (LSeq.zitReplace xs ys c x1 x2).2.1,
-         ofList (LSeq.zitReplace xs ys c x1 x2).2.2.1, ofList (LSeq.zitReplace xs ys c x1 x2).2.2.2, m) ∧
+         ofList t (LSeq.zitReplace xs ys c x1 x2).2.2.1, ofList t2 (LSeq.zitReplace xs ys c x1 x2).2.2.2, m) ∧
       SList.ZipRel (LSeq.zitReplace xs ys c x1 x2).2.2.1 (LSeq.zitReplace xs ys c x1 x2).2.2.2 c z) ∧
-    (∀ x1 x2 k, c.cur = some k →
-      ∃ z', SList.zipAdd (ofList xs) (ofList ys) z x1 x2 m =
-        (if m.alloc.1 then
-           (if m.alloc.2.alloc.1 then
-              (.ok, ofList (LSeq.zitAdd true xs ys c x1 x2).1, ofList (LSeq.zitAdd true xs ys c x1 x2).2.1, z', m.alloc.2.alloc.2)
-            else (.errAlloc, ofList xs, ofList ys, z, m.alloc.2.alloc.2.free))
-         else (.errAlloc, ofList xs, ofList ys, z, m.alloc.2)) ∧
+    (∀ x1 x2 k, c.cur = some k → 
+      ∃ z', SList.zipAdd (ofList t xs) (ofList t2 ys) z x1 x2 m =
+        (if (m.allocT t).1 then
+           (if ((m.allocT t).2.allocT t2).1 then
+              (.ok, ofList t (LSeq.zitAdd true xs ys c x1 x2).1, ofList t2 (LSeq.zitAdd true xs ys c x1 x2).2.1, z',
+               ((m.allocT t).2.allocT t2).2)
+            else (.errAlloc, ofList t xs, ofList t2 ys, z, ((m.allocT t).2.allocT t2).2.freeT t))
+         else (.errAlloc, ofList t xs, ofList t2 ys, z, (m.allocT t).2)) ∧
       SList.ZipRel (LSeq.zitAdd true xs ys c x1 x2).1 (LSeq.zitAdd true xs ys c x1 x2).2.1 (LSeq.zitAdd true xs ys c x1 x2).2.2 z') ∧
     SList.zipIndex z = LSeq.itIndex c :=
   ⟨SList.zipNext_ofList xs ys c z m h, SList.zipRemove_ofList xs ys c z m h,
    fun x1 x2 => SList.zipReplace_ofList xs ys c z x1 x2 m h,
    fun x1 x2 k hc => SList.zipAdd_ofList xs ys c z x1 x2 k m h hc, SList.zipIndex_rel xs ys c z h⟩
+
+/-! ## Whole iterator programs
+
+`Proofs/ListPrograms.lean`: `IOp`/`ZOp` are the iterator calls, `DList.iterRun`/`zipRun` … run a
+program on the model, `LSeqP.run`/`zrun` on the ideal cursor.  The ideal run is guided by the refusals
+the model reports (a refused `add` did not happen) and returns, as its third component, whether
+**every call respected the documented contract** — `add` only with a current element and, for the
+doubly linked list, at most one structural change per yielded element.  The relation
+`IterSim`/`DiterSim`/`ZipSim` at the end says: the list is in the canonical state of the ideal
+content (hence the invariant), the cursors are related, no fault was raised, the other allocator was
+not touched, and the ledger moved exactly with the length. -/
+
+/-- **programs over the ascending iterator of `cc_list.c`**, any refusal schedule -/
+theorem dlist_iter_program (t : Triple) (l : Chain) (h : l.Inv) (ht : l.triple = t) (m : Mem) (ops : List IOp)
+    (hlive : l.abs.length ≤ m.liveT t)
+    (hl : (LSeqP.run false false (l.abs, LSeq.itNew) ops ((DList.iterRun false (l, DList.iterInit l, m) ops).1.map stFlag)).2.2 = true) :
+    (DList.iterRun false (l, DList.iterInit l, m) ops).1 =
+      (LSeqP.run false false (l.abs, LSeq.itNew) ops ((DList.iterRun false (l, DList.iterInit l, m) ops).1.map stFlag)).1 ∧
+    DList.IterSim t m l.abs.length
+      (LSeqP.run false false (l.abs, LSeq.itNew) ops ((DList.iterRun false (l, DList.iterInit l, m) ops).1.map stFlag)).2.1
+      (DList.iterRun false (l, DList.iterInit l, m) ops).2 := by
+  have e := h.eq
+  rw [ht] at e
+  generalize l.abs = xs at *
+  subst e
+  exact DList.iter_program _ xs LSeq.itNew _ m ops (DList.iterInit_rel xs) hlive hl
+
+/-- **programs over the descending iterator of `cc_list.c`** -/
+theorem dlist_diter_program (t : Triple) (l : Chain) (h : l.Inv) (ht : l.triple = t) (m : Mem) (ops : List IOp)
+    (hlive : l.abs.length ≤ m.liveT t)
+    (hl : (LSeqP.run false true (l.abs, LSeq.ditNew l.abs) ops ((DList.iterRun true (l, DList.diterInit l, m) ops).1.map stFlag)).2.2 = true) :
+    (DList.iterRun true (l, DList.diterInit l, m) ops).1 =
+      (LSeqP.run false true (l.abs, LSeq.ditNew l.abs) ops ((DList.iterRun true (l, DList.diterInit l, m) ops).1.map stFlag)).1 ∧
+    DList.DiterSim t m l.abs.length
+      (LSeqP.run false true (l.abs, LSeq.ditNew l.abs) ops ((DList.iterRun true (l, DList.diterInit l, m) ops).1.map stFlag)).2.1
+      (DList.iterRun true (l, DList.diterInit l, m) ops).2 := by
+  have e := h.eq
+  rw [ht] at e
+  generalize l.abs = xs at *
+  subst e
+  exact DList.diter_program _ xs (LSeq.ditNew xs) _ m ops (DList.diterInit_rel xs) hlive hl
+
+/-- **programs over the zip iterator of `cc_list.c`**, the two lists on any two triples -/
+theorem dlist_zip_program (l1 l2 : Chain) (h1 : l1.Inv) (h2 : l2.Inv) (m : Mem) (ops : List ZOp)
+    (hlive : ∀ t', ownedBy l1.triple l2.triple l1.abs l2.abs t' ≤ m.liveT t')
+    (hl : (LSeqP.zrun false (l1.abs, l2.abs, LSeq.itNew) ops ((DList.zipRun (l1, l2, DList.zipInit l1 l2, m) ops).1.map zFlag)).2.2 = true) :
+    (DList.zipRun (l1, l2, DList.zipInit l1 l2, m) ops).1 =
+      (LSeqP.zrun false (l1.abs, l2.abs, LSeq.itNew) ops ((DList.zipRun (l1, l2, DList.zipInit l1 l2, m) ops).1.map zFlag)).1 ∧
+    DList.ZipSim l1.triple l2.triple m l1.abs l2.abs
+      (LSeqP.zrun false (l1.abs, l2.abs, LSeq.itNew) ops ((DList.zipRun (l1, l2, DList.zipInit l1 l2, m) ops).1.map zFlag)).2.1
+      (DList.zipRun (l1, l2, DList.zipInit l1 l2, m) ops).2 := by
+  have e1 := h1.eq
+  have e2 := h2.eq
+  generalize l1.abs = xs at *
+  generalize l2.abs = ys at *
+  generalize l1.triple = t at *
+  generalize l2.triple = t2 at *
+  subst e1 e2
+  exact DList.zip_program t t2 xs ys LSeq.itNew _ m ops (DList.zipInit_rel xs ys) hlive hl
+
+/-- **programs over the iterator of `cc_slist.c`** -/
+theorem slist_iter_program (t : Triple) (l : Chain) (h : l.Inv) (ht : l.triple = t) (m : Mem) (ops : List IOp)
+    (hlive : l.abs.length ≤ m.liveT t)
+    (hl : (LSeqP.run true false (l.abs, LSeq.itNew) ops ((SList.iterRun (l, SList.iterInit l, m) ops).1.map stFlag)).2.2 = true) :
+    (SList.iterRun (l, SList.iterInit l, m) ops).1 =
+      (LSeqP.run true false (l.abs, LSeq.itNew) ops ((SList.iterRun (l, SList.iterInit l, m) ops).1.map stFlag)).1 ∧
+    SList.IterSim t m l.abs.length
+      (LSeqP.run true false (l.abs, LSeq.itNew) ops ((SList.iterRun (l, SList.iterInit l, m) ops).1.map stFlag)).2.1
+      (SList.iterRun (l, SList.iterInit l, m) ops).2 := by
+  have e := h.eq
+  rw [ht] at e
+  generalize l.abs = xs at *
+  subst e
+  exact SList.iter_program _ xs LSeq.itNew _ m ops (SList.iterInit_rel xs) hlive hl
+
+/-- **programs over the zip iterator of `cc_slist.c`** -/
+theorem slist_zip_program (l1 l2 : Chain) (h1 : l1.Inv) (h2 : l2.Inv) (m : Mem) (ops : List ZOp)
+    (hlive : ∀ t', ownedBy l1.triple l2.triple l1.abs l2.abs t' ≤ m.liveT t')
+    (hl : (LSeqP.zrun true (l1.abs, l2.abs, LSeq.itNew) ops ((SList.zipRun (l1, l2, SList.zipInit l1 l2, m) ops).1.map zFlag)).2.2 = true) :
+    (SList.zipRun (l1, l2, SList.zipInit l1 l2, m) ops).1 =
+      (LSeqP.zrun true (l1.abs, l2.abs, LSeq.itNew) ops ((SList.zipRun (l1, l2, SList.zipInit l1 l2, m) ops).1.map zFlag)).1 ∧
+    SList.ZipSim l1.triple l2.triple m l1.abs l2.abs
+      (LSeqP.zrun true (l1.abs, l2.abs, LSeq.itNew) ops ((SList.zipRun (l1, l2, SList.zipInit l1 l2, m) ops).1.map zFlag)).2.1
+      (SList.zipRun (l1, l2, SList.zipInit l1 l2, m) ops).2 := by
+  have e1 := h1.eq
+  have e2 := h2.eq
+  generalize l1.abs = xs at *
+  generalize l2.abs = ys at *
+  generalize l1.triple = t at *
+  generalize l2.triple = t2 at *
+  subst e1 e2
+  exact SList.zip_program t t2 xs ys LSeq.itNew _ m ops (SList.zipInit_rel xs ys) hlive hl
+
+/-- a program is legal by construction when it never calls `add`; e.g. "remove every yielded element"
+and "replace every yielded element" need no side condition -/
+theorem legal_without_add (follow dsc : Bool) : ∀ (ops : List IOp) (s : List Nat × LSeq.Cursor) (fl : List Bool),
+    (∀ op, op ∈ ops → ∀ x, op ≠ .add x) → (LSeqP.run follow dsc s ops fl).2.2 = true
+  | [], _, _, _ => rfl
+  | op :: ops, s, fl, h => by
+    have ih := legal_without_add follow dsc ops (LSeqP.step follow dsc s op (fl.headD false)).2 fl.tail
+      (fun o ho => h o (List.mem_cons_of_mem _ ho))
+    have hop := h op List.mem_cons_self
+    simp only [LSeqP.run, specRun, Bool.and_eq_true] at ih ⊢
+    refine ⟨?_, ih⟩
+    cases op <;> first | rfl | exact absurd rfl (hop _)
 
 /-! ## The property in its own vocabulary: laws of the ideal cursor -/
 
@@ -266,5 +385,14 @@ theorem cursor_replace_law (xs : List Nat) (p x : Nat) (hp : p < xs.length) :
 /-! ## Non-vacuity: a cursor in the middle of a list satisfies the relation -/
 example : DList.ItRel [5, 6, 7] ⟨2, some 1⟩ ⟨2, some 1, some 2⟩ :=
   ⟨rfl, rfl, rfl, by decide, by intro k h; cases h; decide⟩
+
+/-- a program with an insertion and a removal respects the contract (third component) and runs on
+the model as on the ideal cursor; the same program with a second `add` for the same yielded element
+is not legal for the doubly linked list -/
+example :
+    (LSeqP.run false false ([5, 6, 7], LSeq.itNew) [.next, .add 9, .next, .remove, .index] [false, false, false, false, false]).2.2 = true ∧
+    (LSeqP.run false false ([5, 6, 7], LSeq.itNew) [.next, .add 9, .add 8] [false, false, false]).2.2 = false ∧
+    (DList.iterRun false (ofList .libc [5, 6, 7], DList.iterInit (ofList .libc [5, 6, 7]), { liveLibc := 3 })
+      [.next, .add 9, .next, .remove, .index]).2.1.abs = [5, 9, 7] := by decide
 
 end CC.Properties.C07List
